@@ -186,6 +186,16 @@ func mentions(n *Node, name string) bool {
 	return found
 }
 
+func countMentions(n *Node, name string) int {
+	c := 0
+	n.Walk(func(x *Node) {
+		if (x.Kind == KVar || x.Kind == KOp) && x.Name == name {
+			c++
+		}
+	})
+	return c
+}
+
 // samePermuted: is b equal to a up to permutation of and/or operands? Returns "" or a description.
 func samePermuted(a, b *Node) string {
 	if a.Kind != b.Kind || a.Name != b.Name || len(a.Ch) != len(b.Ch) {
@@ -409,6 +419,21 @@ func c16Laws(w *W, r *rand.Rand, g *c16Gen) {
 			m1[k], m2[k] = v, v
 		}
 		m1[n], m2[n] = lo, hi
+		// next to an infinite cost, the largest finite one for another name: an operand that mentions that name once stays
+		// finite (costs add up), so the infinitely expensive operand still comes after it
+		hugeOther := ""
+		if large && math.IsInf(hi, 1) && len(nl) > 1 && r.Intn(2) == 0 {
+			for _, c := range nl[r.Intn(len(nl)):] {
+				if c != n {
+					hugeOther = c
+					break
+				}
+			}
+			if hugeOther != "" {
+				m1[hugeOther], m2[hugeOther] = math.MaxFloat64, math.MaxFloat64
+				w.Inc("infinite_cost_next_to_largest_finite")
+			}
+		}
 		a, okA := c16Compile(w, tree, base|OptRO, m1)
 		b, okB := c16Compile(w, tree, base|OptRO, m2)
 		if !okA || !okB {
@@ -447,7 +472,7 @@ func c16Laws(w *W, r *rand.Rand, g *c16Gen) {
 						if pa[k1] > pa[k2] && pb[k1] < pb[k2] {
 							w.Fail("raising-cost-moves-operand-ahead", "raising the cost of %q from %v to %v moved the operand with tags [%s] (mentions it) ahead of [%s] (does not)\nsource: %s\nconfig: %s\nbefore: %s\nafter:  %s", n, lo, hi, k1, k2, src, a.Cfg, oneLine(a.Dump), oneLine(b.Dump))
 						}
-						if large {
+						if large && (hugeOther == "" || countMentions(c2, hugeOther) <= 1) {
 							w.Inc("large_cost_checks")
 							if pb[k1] < pb[k2] {
 								w.Fail("large-cost-operand-not-last", "with cost %v for %q the operand with tags [%s] (mentions it) is still before [%s] (does not)\nsource: %s\nconfig: %s\ndump: %s", hi, n, k1, k2, src, b.Cfg, oneLine(b.Dump))
